@@ -211,8 +211,15 @@ class Environment:
         # If event has an exception, run its callback before handle the
         # exception. In this way, the exception could be possibly be handled by
         # event's callback.
+        stop = None
         for callback in callbacks:
-            callback(event)
+            try:
+                callback(event)
+            except StopSimulation as exc:
+                # The event is the *until* event of run(). Waiters that were
+                # registered after run() had been called come later in the
+                # list and must be served as well before the run stops.
+                stop = exc
 
         if not event._ok and not hasattr(event, '_defused'):
             # The event has failed and has not been defused. Crash the
@@ -222,6 +229,9 @@ class Environment:
             exc = type(event._value)(*event._value.args)
             exc.__cause__ = event._value
             raise exc
+
+        if stop is not None:
+            raise stop
 
     def run(
         self, until: Optional[Union[SimTime, Event]] = None
